@@ -221,10 +221,18 @@ def h_close_interleave(ctx):
 
         t._send_reconfig_param = send_param
         a.close()
-        b.close()
         tasks = list(env.asyncio.queue)
         del env.asyncio.queue[:]
-        live = list(range(len(tasks)))
+        if ctx.choice("second_close", ["before-the-write-starts", "during-the-write"]) == "during-the-write":
+            for c in tasks:  # the first request is being written (suspended) when b is closed
+                try:
+                    c.send(None)
+                except StopIteration:
+                    pass
+        b.close()
+        tasks += list(env.asyncio.queue)
+        del env.asyncio.queue[:]
+        live = [i for i, c in enumerate(tasks) if c.cr_frame is not None]
         steps = 0
         while live:
             steps += 1
